@@ -541,6 +541,68 @@ fn part_special_positions() -> Stats {
     st
 }
 
+/// `0x` words around the signed 64-bit range and at every written length: a value below 2^63 denotes that
+/// integer however many leading zeros it is written with (0..=24 zeros; the written length is not the
+/// value), in either letter case; a value of 2^63 or more (2^63 + d, 2^64 - 1, 2^64 + d, 17 and more
+/// significant digits) is not a literal "within the signed 64-bit range", so the word is an identifier —
+/// alone and embedded between other tokens without spaces.
+fn part_hex_range() -> Stats {
+    let mut st = Stats::new();
+    let mut inside: Vec<u128> = vec![0, 1, 9, 10, 15, 16, 255, 256, 0xabcdef, 0x7fff_ffff, 0x8000_0000, 0xffff_ffff, 0x1_0000_0000];
+    for k in [15u32, 16, 31, 32, 47, 48, 55, 56, 59, 60, 61, 62] {
+        for d in [-1i128, 0, 1] {
+            inside.push(((1i128 << k) + d) as u128);
+        }
+    }
+    for d in 0..=3u128 {
+        inside.push((1u128 << 63) - 1 - d);
+    }
+    let mut outside: Vec<u128> = Vec::new();
+    for d in 0..=3u128 {
+        outside.push((1u128 << 63) + d);
+        outside.push((1u128 << 64) - 1 - d);
+        outside.push((1u128 << 64) + d);
+    }
+    outside.extend([0x8000_0000_0000_0001u128 << 4, 0xffff_ffff_ffff_ffffu128 << 8, 1u128 << 68, (1u128 << 100) + 5, 0xdead_beef_dead_beef_u128, 0x1_dead_beef_dead_beef_u128]);
+    for zeros in 0..=24usize {
+        let z = "0".repeat(zeros);
+        for &n in &inside {
+            for digits in [format!("{:x}", n), format!("{:X}", n)] {
+                let w = format!("0x{}{}", z, digits);
+                st.count("h/in-range-words");
+                st.count("nontrivial-distinct");
+                check_word(&w, &mut st);
+                check_value(&w, &RV::Int(n as i64), "hex-literal-in-range", json!({"word": w, "n": n as i64}), &mut st);
+                for emb in [format!("({})", w), format!("{}-{}", w, w), format!("x={};x", w), format!("{},1", w)] {
+                    check_against_lexer(&emb, "hex-literal-in-range/embedded", &mut st);
+                }
+            }
+        }
+        for &n in &outside {
+            for digits in [format!("{:x}", n), format!("{:X}", n)] {
+                let w = format!("0x{}{}", z, digits);
+                st.count("h/out-of-range-words");
+                st.count("nontrivial-distinct");
+                check_word(&w, &mut st);
+                // as an identifier it reads the variable of that name
+                st.evaluations += 1;
+                let mut c = evalexpr::HashMapContext::<evalexpr::DefaultNumericTypes>::new();
+                use evalexpr::ContextWithMutableVariables;
+                c.set_value(w.clone(), evalexpr::Value::Int(77)).unwrap();
+                match guarded(|| evalexpr::eval_with_context(&format!("{}+1", w), &c)) {
+                    Ok(Ok(evalexpr::Value::Int(78))) => {},
+                    Ok(other) => st.violation(viol("hex-word-out-of-range", json!({"word": w}), format!("identifier {} (bound to 77: `{}+1` is 78)", w, w), format!("{:?}", other), &w)),
+                    Err(p) => st.violation(viol("panic", json!({"word": w}), "Ok or Err".into(), format!("panic at {}: {}", p.location, p.message), &w)),
+                }
+                for emb in [format!("({})", w), format!("1-{}", w), format!("{}=1", w)] {
+                    check_against_lexer(&emb, "hex-word-out-of-range/embedded", &mut st);
+                }
+            }
+        }
+    }
+    st
+}
+
 /// Long literals: strings, identifiers, digit strings and mantissas of every size in `scale::sizes`.
 fn part_scaling(thorough: bool) -> Stats {
     let mut st = Stats::new();
@@ -623,6 +685,7 @@ pub fn run(cfg: &Cfg) -> Report {
     stats.merge(part_words(t.pick(3, 5)));
     stats.merge(part_scaling(t == Tier::Thorough));
     stats.merge(part_special_positions());
+    stats.merge(part_hex_range());
     // longer float spellings that are known findings are reported through the same matcher
     for w in ["infinity", "Infinity", "INFINITY", "NaN", "Inf"] {
         let mut st = Stats::new();
@@ -656,13 +719,13 @@ pub fn run(cfg: &Cfg) -> Report {
     Report {
         property: ID,
         level: "exploration",
-        rule: format!("(a) every text of length <= {} over a 16-character hostile alphabet, quoted by the reference escaper, alone and in 4 embeddings; (b) every raw source `\"`+w, |w| <= {} over {{\" \\ a n / *}}; (c) every integer below {} in decimal, hex (both digit cases) and with leading zeros, plus 2^k+d and 10^k+d (|d| <= 2) with embeddings; (d) every string of length <= {} over `0 1 5 9 . e E + - x` (token streams) and a pool of doubles (powers of two and ten with neighbours, subnormals, rounding-hard cases) x up to 11 renderings (incl. upper-case `E`, `E+`, `E-`) x 12 embeddings; (e) every word of length <= {} over a 22-character alphabet, and keyword- and number-like words (true, false, inf, nan, infinity, 0x1f, 1e5, ...) in every letter case; (g) special positions: every character in 0..=0x3000 as the content of a string literal and after a backslash inside a string literal (only `\\\\` and `\\\"` are escapes), and 19 kinds of tail after `<mantissa>e` and a sign (a string literal, a group, an identifier, a float, a hex word ... only a digit word joins); (f) scaling families: strings, identifiers, digit strings, mantissas and exponents of n characters for n in 1..20 and up to 129 / 1..40 and up to 400. Oracle: reference lexer/classifier + str::parse. Non-trivial: strings containing quote/backslash/comment characters, raw sources, integers, strings with a float token, float renderings, words classified as literals; every text is enumerated once per part", t.pick(4, 6), t.pick(6, 9), t.pick(1u64 << 14, 1 << 17), t.pick(6, 8), t.pick(3, 5)),
+        rule: format!("(a) every text of length <= {} over a 16-character hostile alphabet, quoted by the reference escaper, alone and in 4 embeddings; (b) every raw source `\"`+w, |w| <= {} over {{\" \\ a n / *}}; (c) every integer below {} in decimal, hex (both digit cases) and with leading zeros, plus 2^k+d and 10^k+d (|d| <= 2) with embeddings; (d) every string of length <= {} over `0 1 5 9 . e E + - x` (token streams) and a pool of doubles (powers of two and ten with neighbours, subnormals, rounding-hard cases) x up to 11 renderings (incl. upper-case `E`, `E+`, `E-`) x 12 embeddings; (e) every word of length <= {} over a 22-character alphabet, and keyword- and number-like words (true, false, inf, nan, infinity, 0x1f, 1e5, ...) in every letter case; (g) special positions: every character in 0..=0x3000 as the content of a string literal and after a backslash inside a string literal (only `\\\\` and `\\\"` are escapes), and 19 kinds of tail after `<mantissa>e` and a sign (a string literal, a group, an identifier, a float, a hex word ... only a digit word joins); (h) `0x` words around the signed 64-bit range: 49 values below 2^63 (small, 2^k+d, 2^63-1-d) written with 0..=24 leading zeros in both digit cases denote that integer (alone and in 4 embeddings), 18 values of 2^63 and more (2^63+d, 2^64-1-d, 2^64+d, 17+ significant digits) with the same paddings are identifiers (read the variable of that name; 3 embeddings); (f) scaling families: strings, identifiers, digit strings, mantissas and exponents of n characters for n in 1..20 and up to 129 / 1..40 and up to 400. Oracle: reference lexer/classifier + str::parse. Non-trivial: strings containing quote/backslash/comment characters, raw sources, integers, strings with a float token, float renderings, words classified as literals; every text is enumerated once per part", t.pick(4, 6), t.pick(6, 9), t.pick(1u64 << 14, 1 << 17), t.pick(6, 8), t.pick(3, 5)),
         nontrivial_set: "counter:nontrivial-distinct",
         exhaustive: true,
         bound_completed: "all listed alphabets to the stated lengths".into(),
         assumptions: vec![
             "reference lexer and word classifier mc/src/refmodel/lexer.rs; Rust's str::parse::<f64> is the trusted correctly rounded conversion (what is checked is token assembly, classification and escaping)".into(),
-            "not claimed: digit strings >= 2^63, uppercase E / 0X, which error is reported for a faulty source (any error is accepted)".into(),
+            "not claimed: decimal digit strings >= 2^63, the prefix 0X, which error is reported for a faulty source (any error is accepted)".into(),
         ],
         stats,
         guards,
@@ -699,7 +762,7 @@ pub fn replay(case: &J) -> i32 {
             s
         });
     } else if let Some(src) = input["source"].as_str() {
-        if kind == "raw-string-source" || kind == "numeric-token-assembly" || kind == "float-literal-embedded" && input["literal"].is_null() {
+        if kind == "raw-string-source" || kind == "numeric-token-assembly" || kind.ends_with("/embedded") || kind == "float-literal-embedded" && input["literal"].is_null() {
             check_against_lexer(src, kind, &mut st);
         } else {
             // value cases: recompute the expectation from the recorded expected key
